@@ -653,6 +653,11 @@ Fixpoint recv_loop (fuel : list msg) (s : vsock) (acc : on_ack_result)
       end
   end.
 
+(* everything below snd_una was acknowledged, hence sent *)
+Definition acked_counts_as_sent (s : vsock) : vsock :=
+  let acked_up_to := wsub16 (ss_snd_una (v_segs s)) 1 in
+  if seq_gt acked_up_to (v_last_sent_seq_nr s) then set_last_sent_seq_nr s acked_up_to else s.
+
 Definition process_all_incoming_messages (s : vsock) : step unit :=
   sbind (recv_loop (v_inbox s ++ [ {| m_hdr := outgoing_header s; m_payload := [] |} ]) s
                    on_ack_result_default)
@@ -672,6 +677,9 @@ Definition process_all_incoming_messages (s : vsock) : step unit :=
         else s1 in
       let s3o : step unit :=
         if 0 <? ar_acked_segments r then
+          (* an acknowledged sequence number was sent: an RTO may have rewound last_sent_seq_nr
+             below segments the peer had received all along (repair of D20) *)
+          let s2 := acked_counts_as_sent s2 in
           let '(tx1, tr) := truncate_front (v_tx s2) (ar_acked_bytes r) in
           match tr with
           | TrBug _ _ => SErr (set_tx s2 tx1) (ErrBug BugTruncateFront)
